@@ -17,4 +17,10 @@ def check(ctx, rep):
     A.rule_emit(m, rep, 'R2', strict=True)
     A.rule_capacity(m, rep, 'R3')
     A.rule_task_closure(m, rep, 'R4', parts=('unit',))
-    A.rule_one_consumer(m, rep, 'R4b', parts=('callers',))
+    from .common import KeepOnly
+    A.rule_one_consumer(m, KeepOnly(rep, ('run-called-only-on-spawned-thread',), 'R4b'), 'R4b', parts=('callers',))
+    # 'capacity ... is never exceeded': what counts against the capacity is everything accepted and not yet handed over, so an
+    # entry leaves the queue only to go straight into the task (no second buffer on the consumer side)
+    # ... and nothing but metrics takes up queue room while a handle is alive: the stop marker is sent by the last drop only
+    B.rule_handle_drop(m, rep, 'R5h')
+    A.rule_loop(m, KeepOnly(rep, ('task-gets-the-dequeued-metric', 'dequeue-precedes-task', 'run/loop-shape'), 'R5'), 'R5')
